@@ -15,6 +15,18 @@ Case grammar sent to `drv_clientread`:
     CALL read <none|zero|pos|neg> <ack 0|1> <sync 0|1> | CALL sub <sub_all> <type> ...
     OBS  <consumed> <connected 0|1> <msg hdr payload|none|unknownType hdr raw|invalidDef|lost|notConnected|blocked|crash:X>
     END
+
+Several sessions of ONE client object (second layer of M3, `Model/ClientReadLife.lean`): the real `Client.connect()` /
+`disconnect()` / `send_signal` next to `read_message`; `pyrtma.client.socket` is a shim whose `socket()` hands out the
+next prepared `FakeSock` (one scripted byte stream per connection), `pyrtma.client.time` a clock that moves only when read.
+    LCASE <id> <hsize> <MT_ACKNOWLEDGE>
+    DEF ...
+    CALL connect            followed by the FRAME / TAIL lines of the NEW connection's incoming stream
+    CALL read .. | CALL sub .. | CALL disconnect | CALL sendFail
+    OBS ..                                                              after a read
+    COBS <consumed> <connected> <joined|ackTimeout|unknownType|invalidDef|lost|blocked|notConnected|crash:X>   after connect / sendFail
+    UOBS                                                                after disconnect / sub
+    END
 """
 from __future__ import annotations
 
@@ -45,6 +57,10 @@ class FakeSock:
         self.cuts = sorted(set(c for c in cuts if 0 < c < len(data)))
         self.closed = False
         self.sent: List[bytes] = []
+        self.send_dead = False      # writes raise ConnectionResetError
+
+    def connect(self, addr):
+        pass
 
     # --- what the client calls -------------------------------------------------------------
     def fileno(self):
@@ -91,6 +107,8 @@ class FakeSock:
     def sendall(self, b, flags=0):
         if self.closed:
             raise OSError(9, "Bad file descriptor")
+        if self.send_dead:
+            raise ConnectionResetError(104, "Connection reset by peer")
         self.sent.append(bytes(b))
 
     def close(self):
@@ -104,6 +122,25 @@ class FakeSock:
         return self.pos < len(self.data) or self.end != "idle"
 
 
+class Clock:
+    """Stands in for the `time` module inside pyrtma.client: time passes only while a select waits out its timeout
+    (and a microsecond per reading of the clock)."""
+    t = 100.0
+
+    @classmethod
+    def perf_counter(cls):
+        cls.t += 1e-6
+        return cls.t
+
+    @staticmethod
+    def time():
+        return 1.7e9
+
+    @staticmethod
+    def sleep(x):
+        pass
+
+
 class FakeSelect:
     """Stands in for the `select` module inside pyrtma.client."""
 
@@ -113,6 +150,7 @@ class FakeSelect:
         if r and not rr and not w:
             if timeout is None:
                 raise WouldBlock()
+            Clock.t += max(float(timeout), 0.0)
             return [], [], []
         return rr, list(w), []
 
@@ -134,6 +172,18 @@ def env():
     from pyrtma import exceptions as EX
 
     PC.select = FakeSelect
+    # sockets made by the client code: the next prepared stream, else an unconnected blank
+    queue: List[FakeSock] = []
+    shim = type("SockShim", (), {})()
+    for k in dir(_socket):
+        if k.isupper():
+            setattr(shim, k, getattr(_socket, k))
+    shim.socket = lambda *a, **k: queue.pop(0) if queue else FakeSock(b"", "idle")
+    shim.getprotobyname = lambda n: 6
+    PC.socket = shim
+
+    PC.time = Clock
+    _ENV["queue"] = queue
     for tid, (size, h) in TEST_DEFS.items():
         ns: Dict[str, Any] = {"type_id": tid, "type_name": f"T{tid}", "type_hash": h, "type_size": size,
                               "type_source": "", "type_def": "", "__annotations__": {}}
@@ -491,3 +541,270 @@ def from_json(c: Dict[str, Any]) -> Dict[str, Any]:
     d["calls"] = [tuple(x) for x in c["calls"]]
     d["sub"] = (c["sub"][0], list(c["sub"][1]))
     return d
+
+
+# ------------------------------------------------------------------------------------------------
+# several sessions of one client object
+# ------------------------------------------------------------------------------------------------
+def run_life_case(cid: str, case: Dict[str, Any]) -> List[str]:
+    """case: timecode, calls [("connect", {frames, tail, end, cuts}) | ("read", tmo, ack, sync) | ("sub", all, [types])
+    | ("disconnect",) | ("sendFail",)]"""
+    E = env()
+    PC, PM, EX = E["PC"], E["PM"], E["EX"]
+    tc = bool(case.get("timecode"))
+    del E["queue"][:]
+    c = PC.Client(timecode=tc)
+    try:
+        c.logger.enable_console = False
+    except Exception:  # noqa: BLE001
+        pass
+    hsize = c._header_cls().size
+    lines = [f"LCASE {cid} {hsize} {E['cd'].MT_ACKNOWLEDGE}"]
+    types = set()
+    for call in case["calls"]:
+        if call[0] == "connect":
+            w = call[1]
+            for h, _ in w["frames"]:
+                types.add(struct.unpack_from("<i", h, 0)[0])
+            if len(w["tail"]) >= 4:
+                types.add(struct.unpack_from("<i", w["tail"], 0)[0])
+    for t in sorted(types):
+        cls = PM._msg_defs.get(t)
+        if cls is not None:
+            lines.append(f"DEF {t} {cls.type_size} {cls.type_hash}")
+    cur: Optional[FakeSock] = None
+    stop = False
+    for call in case["calls"]:
+        kind = call[0]
+        if kind == "connect":
+            w = call[1]
+            lines.append("CALL connect")
+            for h, p in w["frames"]:
+                lines.append(f"FRAME {hexs(h)} {hexs(p)}")
+            lines.append(f"TAIL {hexs(w['tail'])} {w['end']}")
+            if stop:
+                continue
+            data = b"".join(h + p for h, p in w["frames"]) + w["tail"]
+            sock = FakeSock(data, w["end"], w.get("cuts", ()))
+            E["queue"].append(sock)
+            try:
+                c.connect("h:1")
+                r = "joined"
+            except WouldBlock:
+                r = "blocked"
+                stop = True
+            except EX.AcknowledgementTimeout:
+                r = "ackTimeout"
+            except EX.UnknownMessageType:
+                r = "unknownType"
+            except EX.InvalidMessageDefinition:
+                r = "invalidDef"
+            except EX.ConnectionLost:
+                r = "lost"
+            except EX.NotConnectedError:
+                r = "notConnected"
+            except Exception as e:  # noqa: BLE001
+                r = f"crash:{type(e).__name__}"
+            if E["queue"]:
+                raise C.MachineryError("connect() did not take the prepared socket")
+            cur = sock
+            lines.append(f"COBS {sock.pos} {int(bool(c.connected))} {r}")
+        elif kind == "read":
+            _, tmo, ack, sync = call
+            lines.append(f"CALL read {tmo} {int(ack)} {int(sync)}")
+            if stop:
+                continue
+            tval = {"none": None, "zero": 0, "pos": 0.25, "neg": -1}[tmo]
+            before = cur.pos if cur is not None else 0
+            try:
+                m = c.read_message(timeout=tval, ack=ack, sync_check=sync)
+                r = "none" if m is None else f"msg {hexs(mask(bytes(m.header)))} {hexs(bytes(m.data))}"
+            except WouldBlock:
+                r = "blocked"
+                stop = True
+            except EX.UnknownMessageType as e:
+                hh = e.args[1] if len(e.args) > 1 else None
+                raw = e.args[2] if len(e.args) > 2 else b""
+                r = f"unknownType {hexs(mask(bytes(hh))) if hh is not None else '-'} {hexs(bytes(raw))}"
+            except EX.InvalidMessageDefinition:
+                r = "invalidDef"
+            except EX.ConnectionLost:
+                r = "lost"
+            except EX.NotConnectedError:
+                r = "notConnected"
+            except Exception as e:  # noqa: BLE001
+                r = f"crash:{type(e).__name__}"
+            after = cur.pos if cur is not None else 0
+            lines.append(f"OBS {after - before} {int(bool(c.connected))} {r}")
+        elif kind == "sub":
+            _, a, ts = call
+            lines.append("CALL sub %d %s" % (int(bool(a)), " ".join(map(str, ts))))
+            if stop:
+                continue
+            if c.connected:             # the subscription API needs a connection
+                c._sub_all = bool(a)
+                c._subscribed_types = set(ts)
+            lines.append("UOBS")
+        elif kind == "disconnect":
+            lines.append("CALL disconnect")
+            if stop:
+                continue
+            c.disconnect()
+            lines.append("UOBS")
+        elif kind == "sendFail":
+            lines.append("CALL sendFail")
+            if stop:
+                continue
+            if cur is not None:
+                cur.send_dead = True
+            try:
+                c.send_signal(1234)
+                r = "joined"        # a send that succeeds is not what this call stands for
+            except EX.ConnectionLost:
+                r = "lost"
+            except EX.NotConnectedError:
+                r = "notConnected"
+            except Exception as e:  # noqa: BLE001
+                r = f"crash:{type(e).__name__}"
+            lines.append(f"COBS 0 {int(bool(c.connected))} {r}")
+        else:
+            raise C.MachineryError(f"unknown life call {kind}")
+    lines.append("END")
+    c._connected = False
+    return lines
+
+
+def wire(kinds: Sequence[str], tc: bool = False, tail: bytes = b"", end: str = "idle", salt0: int = 1,
+         cuts: Sequence[int] = ()) -> Dict[str, Any]:
+    return {"frames": [frame(k, tc, salt0 + i) for i, k in enumerate(kinds)], "tail": tail, "end": end, "cuts": list(cuts)}
+
+
+FIRST_ENDINGS: List[List[Tuple]] = [
+    [("disconnect",)],
+    [("read", "pos", False, False), ("read", "pos", False, False)],      # reads the second ACK away, then EOF: lost
+    [("sendFail",)],
+    [],                                                                   # connect() while still connected
+    [("sendFail",), ("disconnect",)],
+]
+
+
+def life_directed() -> List[Dict[str, Any]]:
+    out = []
+    for tc in (False, True):
+        for sub in ((False, [5002, 5001]), (True, [ALLT])):
+            for i, ending in enumerate(FIRST_ENDINGS):
+                first = wire(["ack", "ack"], tc, end="fin" if i == 1 else "idle")
+                # second session: handshake ACKs, then a frame of a type the OLD session had subscribed to
+                second = wire(["ack", "ack", "goodS", "signalS", "goodU"], tc, salt0=9)
+                calls = [("connect", first), ("sub",) + sub] + ending + [("connect", second)] + \
+                    reads(3, "pos", False, True) + [("sub", False, [5002]), ("read", "zero", False, False)]
+                out.append({"life": True, "timecode": tc, "calls": calls, "tag": f"life-directed:{i}"})
+    # reads before any connect; a handshake that never gets its ACK; one that is cut; undecodable frames before the ACK
+    out.append({"life": True, "calls": reads(2, "pos", False, False) + [("sendFail",), ("disconnect",)] +
+                reads(1, "zero", True, True), "tag": "life-directed:never"})
+    for kinds, tail, end in ((["goodS", "goodU"], b"", "idle"), (["goodS"], b"", "fin"), (["unknown", "ack"], b"", "idle"),
+                             (["sizePlus", "ack", "goodS"], b"", "idle"), (["badVer", "ack"], b"", "idle"),
+                             ([], frame("ack", False, 3)[0][:20], "rst"), (["goodU", "ack"], frame("goodS", False, 3)[0][:50], "fin")):
+        for stale in ((False, [5002]), (True, [ALLT]), (False, [])):
+            calls = [("connect", wire(["ack"])), ("sub",) + stale, ("sendFail",),
+                     ("connect", {"frames": [frame(k, False, 4 + i) for i, k in enumerate(kinds)], "tail": tail, "end": end,
+                                  "cuts": []})] + reads(3, "pos", False, False)
+            out.append({"life": True, "calls": calls, "tag": "life-directed:handshake"})
+    return out
+
+
+def life_exhaustive(deep: bool):
+    """second session: every sequence of <= n frame kinds before the ACK x <= 2 after, x how the first session ended x
+    what it had subscribed to x argument classes of the following reads"""
+    before_kinds = ["goodS", "goodU", "unknown", "sizePlus", "signalS"]
+    after_kinds = ["goodS", "goodU", "ack", "unknown", "signalS"]
+    for nb in range(0, 3 if deep else 2):
+        for bef in itertools.product(before_kinds, repeat=nb):
+            for na in range(0, 3):
+                for aft in itertools.product(after_kinds, repeat=na):
+                    for i, ending in enumerate(FIRST_ENDINGS[:4]):
+                        for sub in ((False, [5002, 5001]), (True, [ALLT])):
+                            for tmo, ack, end in (("pos", False, "idle"), ("zero", True, "fin"), ("neg", False, "rst")):
+                                first = wire(["ack", "ack"], end="fin" if i == 1 else "idle")
+                                second = wire(list(bef) + ["ack"] + list(aft), end=end, salt0=20)
+                                calls = [("connect", first), ("sub",) + sub] + ending + [("connect", second)] + \
+                                    reads(na + 2, tmo, ack, True)
+                                yield {"life": True, "calls": calls, "tag": "life-ex"}
+
+
+def life_rand_case(rng) -> Dict[str, Any]:
+    tc = rng.random() < 0.3
+    calls: List[Tuple] = []
+    subs = [(False, SUB0), (False, []), (True, [ALLT]), (False, [5003, ACK]), (False, [5001, 5002, 5003, 5004]), (False, [UNKNOWN_T])]
+    connected_guess = False
+    for _ in range(rng.randint(1, 4)):
+        if rng.random() < 0.12:
+            calls += reads(1, rng.choice(["pos", "zero"]), False, False)     # maybe before any connect
+        n_before = rng.choice([0, 0, 0, 1, 2])
+        kinds = [rng.choice(["goodS", "goodU", "signalS", "signalU", "zeroVer", "badVer", "unknown", "sizePlus"])
+                 for _ in range(n_before)]
+        if rng.random() < 0.9:
+            kinds.append("ack")
+            if rng.random() < 0.6:
+                kinds.append("ack")
+        kinds += [rng.choice(KINDS) for _ in range(rng.randint(0, 5))]
+        fr = [frame(k, tc, rng.randint(0, 200)) for k in kinds]
+        end = rng.choice(["idle", "idle", "fin", "rst"])
+        tail = b""
+        if rng.random() < 0.35:
+            h, p = frame(rng.choice(KINDS), tc, rng.randint(0, 200))
+            whole = h + p
+            tail = whole[:rng.randint(0, len(whole) - 1)] if len(whole) > 1 else b""
+        data_len = sum(len(h) + len(p) for h, p in fr) + len(tail)
+        cuts = sorted(rng.randint(1, max(data_len, 1)) for _ in range(rng.randint(0, 4)))
+        calls.append(("connect", {"frames": fr, "tail": tail, "end": end, "cuts": cuts}))
+        for _ in range(rng.randint(0, len(kinds) + 2)):
+            r = rng.random()
+            if r < 0.2:
+                calls.append(("sub",) + rng.choice(subs))
+            elif r < 0.25:
+                calls.append(("sendFail",))
+            elif r < 0.3:
+                calls.append(("disconnect",))
+            else:
+                calls.append(("read", rng.choice(["zero", "pos", "pos", "zero", "neg", "none"]), rng.random() < 0.3,
+                              rng.random() < 0.5))
+    return {"life": True, "timecode": tc, "calls": calls, "tag": "life-random"}
+
+
+def normalise_life(case: Dict[str, Any]) -> Dict[str, Any]:
+    hs = 56 if case.get("timecode") else 48
+    calls = []
+    for c in case["calls"]:
+        if c[0] == "connect":
+            w = c[1]
+            data = b"".join(h + p for h, p in w["frames"]) + w["tail"]
+            fr, tail = split_stream(hs, data)
+            calls.append(("connect", dict(w, frames=fr, tail=tail)))
+        else:
+            calls.append(c)
+    return dict(case, calls=calls)
+
+
+def life_to_json(case: Dict[str, Any]) -> Dict[str, Any]:
+    calls = []
+    for c in case["calls"]:
+        if c[0] == "connect":
+            w = c[1]
+            calls.append(["connect", {"frames": [[h.hex(), p.hex()] for h, p in w["frames"]], "tail": w["tail"].hex(),
+                                      "end": w["end"], "cuts": list(w.get("cuts", ()))}])
+        else:
+            calls.append(list(c))
+    return dict(case, calls=calls)
+
+
+def life_from_json(c: Dict[str, Any]) -> Dict[str, Any]:
+    calls = []
+    for x in c["calls"]:
+        if x[0] == "connect":
+            w = x[1]
+            calls.append(("connect", {"frames": [(bytes.fromhex(h), bytes.fromhex(p)) for h, p in w["frames"]],
+                                      "tail": bytes.fromhex(w["tail"]), "end": w["end"], "cuts": w.get("cuts", [])}))
+        else:
+            calls.append(tuple(x))
+    return dict(c, calls=calls)
